@@ -59,6 +59,17 @@ type Case struct {
 	// Synth: the font is generated from this record (internal/synthfont) instead of read from the
 	// corpus; Font is then a readable name only. Flags may carry 0x40 PRODUCE_UNSAFE_TO_CONCAT.
 	Synth *synthfont.Spec `json:"synth,omitempty"`
+	// further instance settings: normalized coordinates by axis order (instead of Vars), pixels
+	// per em (hinting Device tables of GPOS/GDEF apply), point size (trak)
+	Coords []int   `json:"normalized_coords,omitempty"`
+	XPpem  int     `json:"x_ppem,omitempty"`
+	YPpem  int     `json:"y_ppem,omitempty"`
+	Ptem   float32 `json:"ptem,omitempty"`
+}
+
+// instanceSet: the case shapes with settings that need a Face of its own.
+func (c *Case) instanceSet() bool {
+	return len(c.Vars) > 0 || len(c.Coords) > 0 || c.XPpem != 0 || c.YPpem != 0 || c.Ptem != 0
 }
 
 func (c *Case) runes() []rune {
@@ -101,6 +112,14 @@ func (c *Case) wellFormed() error {
 			return fmt.Errorf("invalid variation")
 		}
 	}
+	for _, v := range c.Coords {
+		if v < -16384 || v > 16384 {
+			return fmt.Errorf("invalid normalized coordinate")
+		}
+	}
+	if len(c.Vars) > 0 && len(c.Coords) > 0 || c.XPpem < 0 || c.XPpem > 0xFFFF || c.YPpem < 0 || c.YPpem > 0xFFFF || c.Ptem != c.Ptem || c.Ptem < 0 {
+		return fmt.Errorf("invalid instance settings")
+	}
 	return nil
 }
 
@@ -132,6 +151,7 @@ type fontEntry struct {
 	syll       []*syllScript // syllabic scripts the font covers (syll_test.go)
 	nglyphs    int
 	hbFont     *harfbuzz.Font  // cached Font for cases without variations
+	device     bool            // GPOS carries hinting Device tables
 	synth      *synthfont.Spec // generated font (synth_test.go)
 	synthFacts synthFacts
 }
@@ -261,6 +281,7 @@ func loadFont(rel string, index int) (*fontEntry, error) {
 		fe.upstream = upstreamFor(rel)
 		fe.units = upstreamUnits(fe.upstream)
 	}
+	fe.device = !fe.traits.Fvar && hasHintingDevices(fe.face)
 	fe.syll = syllScriptsFor(func(r rune) bool { _, ok := fe.face.NominalGlyph(r); return ok })
 	if fe.hb != nil {
 		fe.nglyphs = fe.hb.GlyphCount()
@@ -377,19 +398,31 @@ func shapePort(fe *fontEntry, c *Case) (res portResult, perr error) {
 	// font for every case dominates the run time otherwise); with variations the case gets its
 	// own Face (own coordinates) and Font. The Buffer is always fresh.
 	var hf *harfbuzz.Font
-	if len(c.Vars) == 0 {
+	if !c.instanceSet() {
 		if fe.hbFont == nil {
 			fe.hbFont = harfbuzz.NewFont(font.NewFace(fe.face.Font))
 		}
 		hf = fe.hbFont
 	} else {
 		face := font.NewFace(fe.face.Font)
-		vs := make([]font.Variation, len(c.Vars))
-		for i, v := range c.Vars {
-			vs[i] = font.Variation{Tag: ot.MustNewTag(v.Tag), Value: v.Value}
+		if len(c.Vars) > 0 {
+			vs := make([]font.Variation, len(c.Vars))
+			for i, v := range c.Vars {
+				vs[i] = font.Variation{Tag: ot.MustNewTag(v.Tag), Value: v.Value}
+			}
+			face.SetVariations(vs)
+		} else if len(c.Coords) > 0 {
+			cs := make([]tables.Coord, len(c.Coords))
+			for i, v := range c.Coords {
+				cs[i] = tables.Coord(v)
+			}
+			face.SetCoords(cs)
 		}
-		face.SetVariations(vs)
+		if c.XPpem != 0 || c.YPpem != 0 {
+			face.SetPpem(uint16(c.XPpem), uint16(c.YPpem))
+		}
 		hf = harfbuzz.NewFont(face)
+		hf.Ptem = c.Ptem
 	}
 	buf := harfbuzz.NewBuffer()
 	buf.AddRunes(c.runes(), c.Offset, c.Length)
@@ -455,6 +488,15 @@ func setRefVars(fe *fontEntry, c *Case) {
 		vs[i] = hbref.Variation{Tag: tag32(v.Tag), Value: v.Value}
 	}
 	fe.hb.SetVariations(vs)
+	if len(c.Vars) == 0 && len(c.Coords) > 0 {
+		cs := make([]int32, len(c.Coords))
+		for i, v := range c.Coords {
+			cs[i] = int32(v)
+		}
+		fe.hb.SetNormalizedCoords(cs)
+	}
+	fe.hb.SetPpem(c.XPpem, c.YPpem)
+	fe.hb.SetPtem(c.Ptem)
 }
 
 // shapeRef shapes with libharfbuzz ("ot" shaper, scale = upem). The reference font keeps the
@@ -469,7 +511,11 @@ func shapeRef(fe *fontEntry, c *Case) refResult {
 	return r
 }
 
-func resetRef(fe *fontEntry) { fe.hb.SetVariations(nil) }
+func resetRef(fe *fontEntry) {
+	fe.hb.SetVariations(nil)
+	fe.hb.SetPpem(0, 0)
+	fe.hb.SetPtem(0)
+}
 
 // requireReference exits the process as an infrastructure failure (never a pass, never a
 // violation) when the reference library is not usable.
